@@ -10,7 +10,7 @@ literals handed to display/error, no vectors, no floats."""
 import re
 
 # ------------------------------------------------------------------ encoding
-NHEAD = {70: 1, 71: 1, 72: 2, 73: 3, 74: 1, 75: 1}
+NHEAD = {70: 1, 71: 1, 72: 2, 73: 3, 74: 1, 75: 1, 77: 2}
 
 
 def enc(head, forms):
